@@ -238,6 +238,12 @@ VF_E int tn_call(F const& a, int x) { return a(x); }
 VF_E bool tn_bool(F const& a) { return static_cast<bool>(a); }
 VF_E void tn_swap(F& a, F& b) { a.swap(b); }
 VF_E void tn_dtor(F& a) { a.~F(); }
+// converting (widening) copy / move construction into a larger capacity
+using FW = etl::inplace_function<int(int), 16, 1>;
+VF_E void tn_widen_copy(FW* out, F const& o) { new (out) FW(o); }
+VF_E void tn_widen_move(FW* out, F& o) { new (out) FW(etl::move(o)); }
+VF_E int tnw_call(FW const& a, int x) { return a(x); }
+VF_E void tnw_dtor(FW& a) { a.~FW(); }
 
 // ---- move-only and copy-only element types in static_vector ----------------------------------------------------------
 struct MoveOnly { VF_TRACKED_COMMON(MoveOnly, 4) VF_TRACKED_MOVE(MoveOnly, 4)
